@@ -60,6 +60,11 @@ CHECKS = {
                 text='Partial (stated): one cell per shape (tria, quad, tetra, hexa; general and affine geometry), elements Lagrange1/2, Discontinuous P1, CroRav/RanTur, Bernstein2: partition of unity, J = dx/dxi, hess_ten = dJ/dxi, J*Jinv = I, J^T grad = d value/d xi, second-order chain rule for Hessians, simplex jac_det, and reproduction of symbolic local polynomials by the real interpolator (node functionals + dof mapping).',
                 note='Trusted: SymReal, DAG differentiation in the driver, z3 5.1.0. Claims hold under recorded path conditions (pivoting) and positive orientation. Some second-order obligations on non-affine cells are inconclusive in the quick tier (listed). Outside: Lagrange3 (constexpr DataType), Hermite3/Argyris/BFS/..., orientation of shared multi-DOF faces across cells, DOF numbering, inverse mapping, continuity on meshes.',
                 ref='3/C15'),
+    'C16': dict(cat='other', engine='E2',
+                technique='bounded symbolic execution of the real assemblers (classic and DomainAssembler job route) on one cell with symbolic vertex coordinates; entry-wise identities and an independent closed-form Lagrange1 oracle decided by z3',
+                text='Partial (stated): on one symbolic cell per shape the real SymbolicAssembler / BilinearOperatorAssembler / LinearFunctionalAssembler / DomainAssembler jobs are executed; z3 decides classic == job route, Laplace row sums = 0, symmetry, sum of mass entries = sum_q w_q detJ(x_q), alpha-scaled repeated assembly, and for Lagrange1 that every entry equals an independent cubature sum of the textbook integrand. "Equals the integral" = this identity composed with C14 (rule exactness).',
+                note='Trusted: SymReal, z3 5.1.0, hand-written reference P1/Q1 basis + adjugate Jacobian inverse in the oracle. Several rational-function identities on general cells time out in the quick tier (inconclusive, listed). Outside: multi-cell scatter, voxel assemblers (float/double instantiations only), Burgers/defo assemblers, threaded routes (C17): the two seeded changes for C16 (voxel Poisson kernel, Burgers SD term) are NOT detected.',
+                ref='3/C16'),
     'C19': dict(cat='model_checking', engine='E3',
                 technique='own symbolic executor over the clang-14 LLVM IR of the real adjacency sources (z3 bit-vectors, region memory, path forking); set/multiset oracles decided by z3 per path; memory safety and leak checks by the executor',
                 text='For every shape profile in the bound (domain/image sizes, degree sequence) all index values, permutation entries and orders are symbolic 64-bit values; the real Graph render (all 8 types, single and composite), sort, degree, permuted copy, Permutation (all representations, apply, inverse, concat), Coloring (+partition graph) and CuthillMcKee (all root/sort/reverse options) code is executed symbolically on every feasible path; each access is bounds/liveness checked, heap must be freed, and z3 decides the definition of the operation.',
